@@ -21,7 +21,8 @@ THEOREMS = ['Vakt.C12.enfold_inv', 'Vakt.C12.history_coherent', 'Vakt.C12.get_eq
 EXTRA_BUILD = ['+Gen.EquivEnfold']
 GEN_IMPORTS = ['Gen.EquivEnfold']
 GEN_THEOREMS = ['Vakt.GenEquiv.gen_enfold_add', 'Vakt.GenEquiv.gen_enfold_update', 'Vakt.GenEquiv.gen_enfold_delete',
-                'Vakt.GenEquiv.gen_enfold_get', 'Vakt.GenEquiv.gen_enfold_get_all', 'Vakt.GenEquiv.gen_enfold_populate']
+                'Vakt.GenEquiv.gen_enfold_get', 'Vakt.GenEquiv.gen_enfold_get_all', 'Vakt.GenEquiv.gen_enfold_populate',
+                'Vakt.GenEquiv.gen_enfold_retrieve_all']
 FLOOR = {'quick': 100, 'thorough': 1500}
 ASSUMPTIONS = ['Redis and MongoDB backends are in-process fakes of the client calls (no servers here)']
 BACKENDS = ['memory', 'sqlite', 'redis-json', 'mongo']
